@@ -30,11 +30,12 @@ const (
 	SlowBody
 	LongLine
 	OtherSuccess
+	Blank
 	numFaults
 )
 
 // Names of the fault kinds.
-var Names = [...]string{"ok", "conn-error", "stall", "404", "500", "empty-body", "oversized", "cut-body", "slow-body", "long-line", "other-2xx"}
+var Names = [...]string{"ok", "conn-error", "stall", "404", "500", "empty-body", "oversized", "cut-body", "slow-body", "long-line", "other-2xx", "blank-body"}
 
 // Origin serves resources by URL path.
 type Origin struct {
@@ -139,6 +140,9 @@ func (o *Origin) RoundTrip(req *http.Request) (resp *http.Response, err error) {
 		}
 
 		return mk(code, plain(body), int64(len(body))), nil
+	case Blank:
+		// Nothing but white space: not an empty body, and no document.
+		return mk(http.StatusOK, plain("\n"), 1), nil
 	case LongLine:
 		// The whole resource followed by one line of param octets, as a
 		// minified error page or a broken export has them.
